@@ -286,6 +286,19 @@ impl Checker for OwnChecker {
                     if out.is_ok() != should {
                         rec.viol("C15_privileged_message", format!("{label} by sender #{s} (owner in the model: {:?}) funds={with_funds}: accepted={} expected={should} {}", g.owner, out.is_ok(), out.err_text()));
                     }
+                    if out.is_ok() {
+                        // ownership moves only through propose / accept / renounce: a configuration message leaves it alone
+                        match query_ownership(w, self.contract) {
+                            Some(o) => {
+                                let want_owner = g.owner.map(|x| w.users[x].to_string());
+                                let want_pending = g.pending.map(|x| w.users[x.0].to_string());
+                                if o.owner != want_owner || o.pending_owner != want_pending {
+                                    rec.viol("C15_ownership_changed_by_config_message", format!("{label} by #{s}: ownership is now owner {:?} pending {:?}, the model says owner {:?} pending {:?}", o.owner, o.pending_owner, want_owner, want_pending));
+                                }
+                            }
+                            None => rec.viol("C15_ownership_query_failed", self.name()),
+                        }
+                    }
                     if !out.is_ok() && w.app.storage().data != snap.storage.data {
                         rec.viol("C15_rejected_privileged_message_changed_state", format!("{label} by #{s}"));
                     }
